@@ -430,7 +430,7 @@ theorem stepW_spec {U : Universe} {t : Track} {s : State} (hI : InvW U t s) {w :
     rw [if_neg (by simp)]
     unfold Xs.Ctx.serialize pureSerialize
     rw [← h1]
-    cases hr : (serWalk (fun s c p => doBuild U s c p) toks s [] []) with
+    cases hr : (serWalk U (fun s c p => doBuild U s c p) toks s [] []) with
     | mk s' r =>
       rw [hr] at h2
       cases r <;> exact ⟨h2, fun _ => rfl⟩
@@ -629,7 +629,7 @@ theorem stepC_spec {U : Universe} {t : Track} {s : State} (hI : InvC U t s) (w :
     simp only [step, pureOut]
     unfold Xs.Ctx.serialize pureSerialize
     rw [← h1]
-    cases hr : (serWalk (fun s c p => doBuild U s c p) toks s [] []) with
+    cases hr : (serWalk U (fun s c p => doBuild U s c p) toks s [] []) with
     | mk s' r =>
       rw [hr] at h2
       cases r <;> exact ⟨h2, fun _ => rfl⟩
